@@ -381,6 +381,9 @@ func (d *bcDriver) clientOf(a *sched.Actor) *bcClient {
 
 func (d *bcDriver) Run(x *sched.Exec, raw json.RawMessage) json.RawMessage {
 	d.x = x
+	// BroadcastP judges critical sections by events logged inside them and returns by the call's own
+	// history, so finer park points and combined steps are sound here (see sched.Exec.Double / ParkUnl)
+	x.OptDouble, x.OptParkUnl = true, true
 	var sc bcScenario
 	if raw != nil {
 		if err := json.Unmarshal(raw, &sc); err != nil {
@@ -414,11 +417,8 @@ func (d *bcDriver) Run(x *sched.Exec, raw json.RawMessage) json.RawMessage {
 				if p == nil {
 					continue
 				}
-				if p.Kind == "lock" {
-					c := d.clientOf(a)
-					if c == nil || (c.cur != "try" && c.cur != "maybe") {
-						continue
-					}
+				if p.Kind == "lock" { // (TryLock sites park with Kind "trylock")
+					continue
 				}
 			}
 			ms = append(ms, sched.Move{Label: "grant:" + a.Name, Actor: a.Name, Do: func() { x.Grant(a) }})
